@@ -199,16 +199,16 @@ func (n *Node) start() *Inst {
 		close(inst.done)
 	}()
 	synctest.Wait()
-	if inst.stopped {
-		s.logf("node %s failed to start: %v", n.name, inst.serveErr)
-		return inst
-	}
-	if inst.srv == nil || !inst.srv.loadedAndReady.Load() {
-		// Either the boot failed and Serve is on its way out (its deferred shutdown steps need
-		// virtual time to pass), or it needs the lock. Give a failing boot the time to return,
-		// so that its error is known, inside a quiet region (fixed cost in steps and time).
+	if inst.stopped || inst.srv == nil || !inst.srv.loadedAndReady.Load() {
+		// Either the boot failed - Serve has returned already, or is on its way out (its deferred
+		// shutdown steps need virtual time to pass) - or it needs the lock. Which of the first
+		// two it is after one Wait depends on how far the boot's goroutines got, which is not
+		// under the scheduler's control: both take the same quiet region (fixed cost in steps
+		// and time), in which a failing boot gets the time to return so that its error is known.
 		s.quiet(400, 3*time.Second, func() {
-			s.Drain(2500*time.Millisecond, func() bool { return inst.stopped || inst.ready() })
+			if !inst.stopped {
+				s.Drain(2500*time.Millisecond, func() bool { return inst.stopped || inst.ready() })
+			}
 		})
 		if inst.stopped {
 			s.logf("node %s failed to start: %v", n.name, inst.serveErr)
